@@ -262,3 +262,17 @@ def lint_chunk_local_index(rep: Report, fi: FuncInfo, rule: str = "CHUNK-INDEX")
                         host = getattr(host, "_parent", None)
                     rep.violation(rule, fi, host if host is not None else st, f"`{nm}` indexes positions inside the slab that starts at `{s}` ({unparse(st)[:70]}), but it is used without adding `{s}`: for inputs longer than one slab it points into the first slab of the whole array", node=u)
     return n
+
+
+def lint_store_through_copy(rep: Report, fi: FuncInfo, rule: str = "COPY-STORE") -> int:
+    """`t.reshape(..)[idx] = v` (also flatten / contiguous / to / float): these calls return a view only when the
+    layout allows it and otherwise a temporary COPY, so for non-contiguous tensors the store never reaches `t`.
+    `.view()` is safe (it raises instead of copying)."""
+    n = 0
+    for st in ast.walk(fi.node):
+        tg = st.targets if isinstance(st, ast.Assign) else ([st.target] if isinstance(st, ast.AugAssign) else [])
+        for t in tg:
+            if isinstance(t, ast.Subscript) and isinstance(t.value, ast.Call) and isinstance(t.value.func, ast.Attribute) and t.value.func.attr in ("reshape", "flatten", "contiguous", "ravel", "to", "float", "double", "type"):
+                n += 1
+                rep.violation(rule, fi, st, f"the store goes through `.{t.value.func.attr}(...)`, which returns a temporary copy whenever the tensor's memory layout does not allow a view (transposed / permuted / sliced inputs, whose strides survive clone() and arithmetic): for such inputs the write is silently lost and the tensor stays unchanged", node=st)
+    return n
